@@ -11,6 +11,9 @@ tie    : K  exact stream: the three construct_* routines are called directly on 
          G  oracle contract of Eigen::GeneralizedSelfAdjointEigenSolver as used by
             generalized_eigendecomposition (which triangle is read, A V = B V L, V^T B V = I,
             ascending, columns 0..d-1 selected);
+         J  exact stream: compute_mean and project of routines/pca.hpp called directly on dyadic data and
+            compared exactly with the extracted model (project_stream_spec: mean = sample mean,
+            embedding = P^T (x - mean), columns sum to zero);
          E  public API (tapkee::embed): generalised-eigen residual / Rayleigh quotients against an
             independently built X M X^T, X B X^T (plain loops), B-orthonormality, embedding =
             centred samples projected, rotation pairs X -> R X (embedding unchanged up to column
@@ -389,6 +392,68 @@ def first_diff(impl, model, D):
             k2 = k % (D * D)
             return "%s(%d,%d): implementation %s, model %s" % (t, k2 // D, k2 % D, a, b)
     return "(none)"
+
+
+# ----------------------------------------------------------------------------- J stream (compute_mean + project, exact)
+def gen_j_case(rng):
+    N = rng.choice([1, 2, 2, 4, 4, 8, 16])          # a power of two: the mean is exact in binary64
+    D = rng.choice([1, 2, 3, 4, 6])
+    d = rng.randint(1, D)
+    off = [Fraction(rng.choice([0, 0, 7, -12]), 1) for _ in range(D)]
+    X = [[Fraction(rng.randint(-8, 8), 2 ** rng.choice([0, 1, 2])) + off[f] for _ in range(N)] for f in range(D)]
+    P = [[Fraction(rng.randint(-9, 9), 2 ** rng.choice([0, 1, 3])) for _ in range(d)] for _ in range(D)]
+    return {"kind": "J", "N": N, "D": D, "d": d, "X": [[fs(v) for v in r] for r in X],
+            "P": [[fs(v) for v in r] for r in P]}
+
+
+def eval_j(ctx, exe1, mexe, cases, stats):
+    if not cases:
+        return 0
+    il, ml = [], []
+    for c in cases:
+        N, D, d = c["N"], c["D"], c["d"]
+        X = [[sf(v) for v in r] for r in c["X"]]
+        P = [[sf(v) for v in r] for r in c["P"]]
+        il.append("J %d %d %d %s %s" % (N, D, d, " ".join(hexf(X[f][s]) for s in range(N) for f in range(D)),
+                                       " ".join(hexf(v) for r in P for v in r)))
+        ml.append("J %d %d %d %s %s" % (N, D, d, " ".join(frac_token(v) for r in X for v in r),
+                                       " ".join(frac_token(v) for r in P for v in r)))
+    res, info = run_lines(ctx, exe1, il, timeout=300)
+    mr = ctx.run(mexe, "\n".join(ml) + "\n", timeout=300)
+    mo = mr.out.splitlines()
+    if mr.rc != 0 or len(mo) != len(cases):
+        raise vlib.BuildError("model driver failed on the J stream: rc=%s %s" % (mr.rc, mr.err[-300:]))
+    for c, line, inf, m in zip(cases, res, info, mo):
+        N, D, d = c["N"], c["D"], c["d"]
+        if inf is not None:
+            ctx.violation(c, "compute_mean / project crashed or hung: " + str(inf)[:400])
+            continue
+        if not line.startswith("J ok"):
+            ctx.violation(c, "compute_mean / project failed on valid input: " + line[:200])
+            continue
+        t = parse_tagged(line, ("mean", "Y"))
+        try:
+            got = [Fraction(parse_hex(x)) for x in t.get("mean", []) + t.get("Y", [])]
+        except (ValueError, OverflowError):
+            got = None
+        mw = m.split()
+        want = [token_frac(x) for x in mw[1:]] if mw and mw[0] == "ok" else None
+        if want is None:
+            ctx.mismatch(c, "model reports %s on an input compute_mean / project accept" % m[:60])
+            continue
+        if got is None or len(got) != D + N * d:
+            ctx.violation(c, "compute_mean / project returned non-finite or misshapen results: " + line[:200])
+            continue
+        if got != want:
+            k = next(i for i, (a, b) in enumerate(zip(got, want)) if a != b)
+            what = ("mean(%d)" % k) if k < D else ("embedding(%d,%d)" % ((k - D) // d, (k - D) % d))
+            # the model IS the specification here (project_stream_spec: mean = sample mean, Y = P^T (x - mean))
+            ctx.violation(c, "the embedding is not the centred samples projected on the columns of P: %s is %s, "
+                             "P^T (x - sample mean) gives %s" % (what, got[k], want[k]))
+            stats["j_fail"] += 1
+        else:
+            stats["j_ok"] += 1
+    return len(cases)
 
 
 # ----------------------------------------------------------------------------- small float linear algebra
@@ -849,7 +914,7 @@ def build_all(ctx):
 def new_stats():
     return {"malformed": 0, "spec_ok": 0, "spec_fail": 0, "other_triangle_differs": 0, "g_ok": 0,
             "select_bad": 0, "e_ok": 0, "e_fail": 0, "ref_failed": 0, "rot_ok": 0, "rot_fail": 0,
-            "chain_ok": 0, "chain_bad": 0, "chain_missing": 0, "rot_cols": 0, "rot_skipped_gap": 0, "rot_skipped_unstable_M": 0, "rot_max_M_reldiff": 0.0, "rot_min_cos": 1.0, "e_max_res": 0.0, "triangle_votes": {}}
+            "j_ok": 0, "j_fail": 0, "chain_ok": 0, "chain_bad": 0, "chain_missing": 0, "rot_cols": 0, "rot_skipped_gap": 0, "rot_skipped_unstable_M": 0, "rot_max_M_reldiff": 0.0, "rot_min_cos": 1.0, "e_max_res": 0.0, "triangle_votes": {}}
 
 
 K_KINDS = ("plain", "plain", "correlated", "symmetric", "alignment", "empty", "zero")
@@ -882,7 +947,7 @@ def run(ctx):
     ck, ce, cg = [], [], []
     for name, c in ctx.corpus():
         hist["corpus"] += 1
-        {"K": ck, "E": ce, "G": cg}.get(c.get("kind"), ck).append(c)
+        {"K": ck, "E": ce, "G": cg, "J": ck}.get(c.get("kind"), ck).append(c)
     kc, gc, ec = ck + kc, cg + gc, ce + ec
     n = 0
     ng_done, reads = eval_g(ctx, exe1, gc, stats)
@@ -891,7 +956,11 @@ def run(ctx):
         ctx.unshown("oracle contract: the generalised solver no longer reads (only) the lower triangles "
                     "(probe votes %s); the model's `seen` = read_lower does not describe it" % stats["triangle_votes"])
     stats["t_g_done_s"] = round(ctx.elapsed(), 1)
-    n += eval_k(ctx, exe1, mexe, kc, stats, reads=reads or "lower")
+    n += eval_k(ctx, exe1, mexe, [c for c in kc if c.get("kind") != "J"], stats, reads=reads or "lower")
+    jc = [c for c in ck if c.get("kind") == "J"] + [gen_j_case(rng) for _ in range(40 if quick else 1500)]
+    kc = [c for c in kc if c.get("kind") != "J"]
+    n += eval_j(ctx, exe1, mexe, jc, stats)
+    hist["J"] = len(jc)
     stats["t_k_done_s"] = round(ctx.elapsed(), 1)
     n += eval_e(ctx, exe1, exe2, ec, stats, rng)
     stats["t_e_done_s"] = round(ctx.elapsed(), 1)
@@ -900,6 +969,7 @@ def run(ctx):
         ctx.note("search phase entered: " + "; ".join(ctx._unshown)[:300])
         kc2, gc2, ec2 = make_cases(rng, 5 * nk, 0, 3 * ne, big=True)
         n += eval_k(ctx, exe1, mexe, kc2, stats, reads=reads or "lower")
+        n += eval_j(ctx, exe1, mexe, [gen_j_case(rng) for _ in range(400)], stats)
         if not ctx.has_violation():
             n += eval_e(ctx, exe1, exe2, ec2, stats, rng)
         kc, ec = kc + kc2, ec + ec2
@@ -929,7 +999,8 @@ def run(ctx):
              "alignment-like W with zero row/column sums, empty W, zero X, malformed index); non-trivial = N>=2, "
              "D>=2, nnz>=1, distinct by hash. G: random pencils whose two triangles hold different symmetric "
              "matrices. E: public-API runs (latent 3-d structure, correlated noise, offsets 0..20, D 2..8 quick / "
-             "..30 thorough), every second one also on R X. evaluations = K + G + E(+rotated) driver runs.",
+             "..30 thorough), every second one also on R X. J: exact compute_mean/project cases (N = 2^k, dyadic X "
+             "and P). evaluations = K + G + J + E(+rotated) driver runs.",
         samples=samples, histogram={"generators": hist, "stats": stats},
         trusted_base=TRUSTED, assumptions=ASSUMPTIONS,
         extra={"tolerances": {"residual": RES_TOL, "rayleigh": RQ_TOL, "gram": GRAM_TOL, "embedding": EMB_TOL,
@@ -949,6 +1020,8 @@ def replay(ctx, case):
         print("model / reference pencil:", mr.out[:800])
     elif kind == "G":
         eval_g(ctx, exe1, [case], stats)
+    elif kind == "J":
+        eval_j(ctx, exe1, mexe, [case], stats)
     else:
         eval_e(ctx, exe1, exe2, [case], stats, ctx.rng, rotate_every=1)
     print("stats:", json.dumps(stats))
